@@ -11,8 +11,10 @@ PROP = {
                   "C16_single_member), and default-occur resolution preserves meaning (C16_logical_ast_sem); the strict grammar (parse_to_ast and everything below, rewrite_ast, "
                   "set_field / set_default_field) is transliterated as a total fuelled parser parse_ref, and C16_print_parse proves, for every concrete query of the fragment "
                   "{quoted phrases of either quote kind, + / - markers, AND / OR chains, implicit lists, parentheses to any depth} under every layout (whitespace runs of "
-                  "space/tab/CR/LF, redundant parentheses), parse_ref (print c) = Ok (norm_top c), including adequacy of the fuel. Partial: (1) panic-freedom and termination of the nom-based Rust parser are TESTED (fuzz stream), not proved - and are "
-                  "violated on the unchanged tree: F12 (panic), F161 (stack overflow on deep nesting), F162 (endless loop of the lenient parser); (2) lenient = strict is tested "
+                  "space/tab/CR/LF, redundant parentheses), parse_ref (print c) = Ok (norm_top c), including adequacy of the fuel; C16_model_total proves that under the pinned shape of `literal` "
+                  "(QG_LITERAL_REJECTS_BARE_EXISTS = 1, regenerated from query_grammar.rs) parse_ref never panics, for every string (C16_strict_total_refuted keeps the witness for the "
+                  "old shape, F12, fixed in 7a6b9829a). Partial: (1) panic-freedom and termination of the nom-based Rust parser are TESTED (fuzz stream), not proved - and are "
+                  "violated on the unchanged tree: F161 (stack overflow on deep nesting), F162 (endless loop of the lenient parser); a panic of the strict entry point is an ordinary violation since the F12 fix; (2) lenient = strict is tested "
                   "only, the lenient grammar is not modelled, and it is violated (F13); (3) bare words, field scoping, slop/prefix, ranges, IN sets, exists, boosts, NOT, field groups and typed literals are covered by "
                   "the tie (parse_ref vs parse_query on every generated and fuzzed string) and by the spec cases (norm_top / Count vs the documented meaning evaluated in Coq), "
                   "not by C16_print_parse; typed literals only for text, raw-string and u64 fields. Mixed implicit/explicit operator lists are outside the documented grammar: "
